@@ -46,6 +46,12 @@ class BenchAst:
             k = 1 if t in ("buf", "buff", "not") else rng.randint(1, min(4, len(pool)))
             # `_n3`: identifiers may start with an underscore (K40); names that contain a gate keyword (`buff1`, `xnor_2`)
             net = f"{rng.choice(['n', 'w', 'G1', '_n', 'n', 'w', 'buff', 'rebuff_', 'BUFFER', 'xnor_', 'nand', 'dff_', 'OUTPUTx', 'input_'])}{i}"
+            if qs and rng.random() < 0.1:
+                # a net named like the flop instance the reader creates for `q = DFF(d)` (`q_dff`): instances and nets
+                # live in different namespaces
+                cand = f"{rng.choice(qs)}_dff"
+                if cand not in pool:
+                    net = cand
             ops = rng.sample(pool, k)
             if k >= 1 and t not in ("buf", "buff", "not") and rng.random() < 0.12:
                 dup = rng.choice(ops)                     # an operand given 2, 3 or 4 times (cancels in XOR/XNOR: K35)
